@@ -43,6 +43,10 @@ type L2Config struct {
 	FrameMS     int      `json:"frame_ms"`
 	SyncClockMS int      `json:"sync_ms"`
 	ReceiptCap  int      `json:"receipt_cap"`
+	// the main loop of connection DiscDelayConn is held for DiscDelayMS at the entry of HandleDisconnect (what a
+	// descheduled goroutine looks like): the placement of that pause is part of "all placements of stalls and closes"
+	DiscDelayConn int `json:"disc_delay_conn"`
+	DiscDelayMS   int `json:"disc_delay_ms"`
 }
 
 type Event struct {
@@ -203,6 +207,9 @@ func (o *obsHandler) HandleConnect(conn *websocket.Conn) {
 }
 func (o *obsHandler) HandleDisconnect(err error) {
 	o.l.event(o.id, "disc_begin", "", err)
+	if o.l.cfg.DiscDelayMS > 0 && o.l.cfg.DiscDelayConn == o.id {
+		time.Sleep(time.Duration(o.l.cfg.DiscDelayMS) * time.Millisecond)
+	}
 	o.Handler.HandleDisconnect(err)
 	o.l.event(o.id, "disc", "", nil)
 }
@@ -375,8 +382,17 @@ func (c *L2Client) Got() []M {
 	return append([]M(nil), c.got...)
 }
 
-func (c *L2Client) SendBytes(b []byte) error { return websocket.Message.Send(c.ws, b) }
-func (c *L2Client) SendText(s string) error  { return websocket.Message.Send(c.ws, s) }
+// a wedged server stops reading: a client write must fail then, not hang the harness
+const clientWriteTimeout = 15 * time.Second
+
+func (c *L2Client) SendBytes(b []byte) error {
+	c.raw.SetWriteDeadline(time.Now().Add(clientWriteTimeout))
+	return websocket.Message.Send(c.ws, b)
+}
+func (c *L2Client) SendText(s string) error {
+	c.raw.SetWriteDeadline(time.Now().Add(clientWriteTimeout))
+	return websocket.Message.Send(c.ws, s)
+}
 
 func (c *L2Client) SendReq(r M) error {
 	c.l.mu.Lock()
